@@ -200,6 +200,11 @@ func visitInstr(fr *frame, instr ssa.Instruction) continuation {
 				fr.env[instr] = v
 			}
 		} else {
+			if instr.Op == token.MUL {
+				if a, ok := fr.get(instr.X).(*value); ok {
+					fr.i.ex.noteLoad(fr, instr, a)
+				}
+			}
 			fr.env[instr] = unop(instr, fr.get(instr.X))
 		}
 
@@ -398,6 +403,9 @@ func visitInstr(fr *frame, instr ssa.Instruction) continuation {
 		}
 
 	case *ssa.Lookup:
+		if m, ok := fr.get(instr.X).(*omap); ok {
+			fr.i.ex.noteLoad(fr, instr, m)
+		}
 		fr.env[instr] = lookup(instr, fr.get(instr.X), fr.get(instr.Index))
 
 	case *ssa.MapUpdate:
